@@ -1,4 +1,5 @@
-(** C11 (fragment F1): Name declarations and (nested) Device blocks.
+(** C11 (fragments F1 / F2): Name declarations, (nested) Device blocks and Method declarations whose bodies hold
+    declarations only.
     Items, their encoding, the tree the first pass builds for them ([lay1]) and the tree after
     connectNamedObjArgs ([lay2]). *)
 From Coq Require Import NArith ZArith Arith List Bool Lia.
@@ -13,23 +14,28 @@ Ltac Zify.zify_post_hook ::= Z.div_mod_to_equations.
 
 Inductive item : Type :=
 | IName (d : decl)
-| IDev (k seg : N) (body : list item).
+| IDev (k seg : N) (body : list item)
+| IMeth (k seg fl : N) (body : list item).
 
 Fixpoint enc_item (it : item) : list N :=
   match it with
   | IName d => enc_decl d
   | IDev k seg body =>
       enc_op OP_DEVICE ++ enc_pkglen k (k + lenN (seg_bytes seg ++ flat_map enc_item body)) ++ seg_bytes seg ++ flat_map enc_item body
+  | IMeth k seg fl body =>
+      enc_op OP_METHOD ++ enc_pkglen k (k + lenN (seg_bytes seg ++ [fl] ++ flat_map enc_item body)) ++ seg_bytes seg ++ [fl] ++ flat_map enc_item body
   end.
 Definition enc_items (l : list item) : list N := flat_map enc_item l.
 
 (** number of objects / fuel units of the first pass *)
 Fixpoint isz (it : item) : nat :=
-  match it with IName _ => 3%nat | IDev _ _ body => (3 + fold_right (fun x n => (isz x + n)%nat) O body)%nat end.
+  match it with IName _ => 3%nat | IDev _ _ body => (3 + fold_right (fun x n => (isz x + n)%nat) O body)%nat
+              | IMeth _ _ _ body => (4 + fold_right (fun x n => (isz x + n)%nat) O body)%nat end.
 Definition iszs (l : list item) : nat := fold_right (fun x n => (isz x + n)%nat) O l.
 
 Fixpoint icnt (it : item) : nat :=
-  match it with IName _ => 2%nat | IDev _ _ body => (2 + fold_right (fun x n => (icnt x + n)%nat) O body)%nat end.
+  match it with IName _ => 2%nat | IDev _ _ body => (2 + fold_right (fun x n => (icnt x + n)%nat) O body)%nat
+              | IMeth _ _ _ body => (2 + fold_right (fun x n => (icnt x + n)%nat) O body)%nat end.
 Definition icnts (l : list item) : nat := fold_right (fun x n => (icnt x + n)%nat) O l.
 
 Definition pkglen_okb (k v : N) : bool :=
@@ -52,6 +58,9 @@ Fixpoint item_okb (it : item) : bool :=
   | IDev k seg body =>
       lead_okb (seg_lead seg) && (seg <? 0x100000000) && pkglen_okb k (k + lenN (seg_bytes seg ++ flat_map enc_item body)) &&
       forallb item_okb body
+  | IMeth k seg fl body =>
+      lead_okb (seg_lead seg) && (seg <? 0x100000000) && (fl <? 256) &&
+      pkglen_okb k (k + lenN (seg_bytes seg ++ [fl] ++ flat_map enc_item body)) && forallb item_okb body
   end.
 
 (** ---- the trees ---- *)
@@ -63,6 +72,8 @@ Definition sb_pay (off : N) : pay := mkPay aml_pOpIntScopeBlock 113 h name_zero 
 Definition pth_pay (off : N) : pay := mkPay aml_pOpIntNamePath 118 h name_zero off 0 (Some (VBytes tbl (mkSlice (Some off) 4))).
 Definition nam_pay (off : N) (nm : Name) : pay := mkPay aml_pOpName 3 h nm off 0 None.
 Definition cst_pay (off : N) (d : decl) : pay := mkPay (d_op d) (const_info (d_op d)) h name_zero off 0 (const_val (d_op d) (d_v d)).
+Definition mth_pay (off : N) (nm : Name) : pay := mkPay aml_pOpMethod 13 h nm off 0 None.
+Definition byt_pay (off v : N) : pay := cst_pay off (mkDecl 0 OP_BYTE v).
 
 (** after the first pass: the constant is the next sibling of the Name object; names are not set *)
 Fixpoint lay1_item (b off : N) (it : item) : list rose :=
@@ -75,6 +86,14 @@ Fixpoint lay1_item (b off : N) (it : item) : list rose :=
               ((fix go (b off : N) (l : list item) {struct l} : list rose :=
                   match l with [] => [] | x :: t => lay1_item b off x ++ go (b + N.of_nat (isz x)) (off + lenN (enc_item x)) t end)
                  (b + 3) (off + 2 + k + 4) body)]]
+  | IMeth k seg fl body =>
+      [RN b (mth_pay off name_zero)
+          [RN (b + 1) (pth_pay (off + 1 + k)) [];
+           RN (b + 2) (byt_pay (off + 1 + k + 4) fl) [];
+           RN (b + 3) (sb_pay (off + 1 + k + 5))
+              ((fix go (b off : N) (l : list item) {struct l} : list rose :=
+                  match l with [] => [] | x :: t => lay1_item b off x ++ go (b + N.of_nat (isz x)) (off + lenN (enc_item x)) t end)
+                 (b + 4) (off + 1 + k + 5) body)]]
   end.
 Fixpoint lay1 (b off : N) (l : list item) : list rose :=
   match l with [] => [] | x :: t => lay1_item b off x ++ lay1 (b + N.of_nat (isz x)) (off + lenN (enc_item x)) t end.
@@ -94,9 +113,27 @@ Fixpoint lay2_item (b off : N) (it : item) : list rose :=
               ((fix go (b off : N) (l : list item) {struct l} : list rose :=
                   match l with [] => [] | x :: t => lay2_item b off x ++ go (b + N.of_nat (isz x)) (off + lenN (enc_item x)) t end)
                  (b + 3) (off + 2 + k + 4) body)]]
+  | IMeth k seg fl body =>
+      [RN b (mth_pay off (seg_nm seg))
+          [RN (b + 1) (pth_pay (off + 1 + k)) [];
+           RN (b + 2) (byt_pay (off + 1 + k + 4) fl) [];
+           RN (b + 3) (sb_pay (off + 1 + k + 5))
+              ((fix go (b off : N) (l : list item) {struct l} : list rose :=
+                  match l with [] => [] | x :: t => lay2_item b off x ++ go (b + N.of_nat (isz x)) (off + lenN (enc_item x)) t end)
+                 (b + 4) (off + 1 + k + 5) body)]]
   end.
 Fixpoint lay2 (b off : N) (l : list item) : list rose :=
   match l with [] => [] | x :: t => lay2_item b off x ++ lay2 (b + N.of_nat (isz x)) (off + lenN (enc_item x)) t end.
+
+Lemma lay1_meth b off k seg fl body : lay1_item b off (IMeth k seg fl body) =
+  [RN b (mth_pay off name_zero) [RN (b + 1) (pth_pay (off + 1 + k)) []; RN (b + 2) (byt_pay (off + 1 + k + 4) fl) [];
+                                  RN (b + 3) (sb_pay (off + 1 + k + 5)) (lay1 (b + 4) (off + 1 + k + 5) body)]].
+Proof. reflexivity. Qed.
+
+Lemma lay2_meth b off k seg fl body : lay2_item b off (IMeth k seg fl body) =
+  [RN b (mth_pay off (seg_nm seg)) [RN (b + 1) (pth_pay (off + 1 + k)) []; RN (b + 2) (byt_pay (off + 1 + k + 4) fl) [];
+                                     RN (b + 3) (sb_pay (off + 1 + k + 5)) (lay2 (b + 4) (off + 1 + k + 5) body)]].
+Proof. reflexivity. Qed.
 
 Lemma lay2_dev b off k seg body : lay2_item b off (IDev k seg body) =
   [RN b (dev_pay off (seg_nm seg)) [RN (b + 1) (pth_pay (off + 2 + k)) []; RN (b + 2) (sb_pay (off + 2 + k + 4)) (lay2 (b + 3) (off + 2 + k + 4) body)]].
@@ -111,23 +148,33 @@ Lemma enc_dev k seg body : enc_item (IDev k seg body) =
   enc_op OP_DEVICE ++ enc_pkglen k (k + lenN (seg_bytes seg ++ enc_items body)) ++ seg_bytes seg ++ enc_items body.
 Proof. reflexivity. Qed.
 
+Lemma isz_meth k seg fl body : isz (IMeth k seg fl body) = (4 + iszs body)%nat.
+Proof. reflexivity. Qed.
+Lemma icnt_meth k seg fl body : icnt (IMeth k seg fl body) = (2 + icnts body)%nat.
+Proof. reflexivity. Qed.
+Lemma enc_meth k seg fl body : enc_item (IMeth k seg fl body) =
+  enc_op OP_METHOD ++ enc_pkglen k (k + lenN (seg_bytes seg ++ [fl] ++ enc_items body)) ++ seg_bytes seg ++ [fl] ++ enc_items body.
+Proof. reflexivity. Qed.
+
 Lemma isz_pos it : (3 <= isz it)%nat.
-Proof. destruct it; [cbn; lia|rewrite isz_dev; lia]. Qed.
+Proof. destruct it; [cbn; lia|rewrite isz_dev; lia|rewrite isz_meth; lia]. Qed.
 
 (** induction on the number of objects *)
 Lemma items_ind (P : list item -> Prop) :
   P [] ->
   (forall d rest, P rest -> P (IName d :: rest)) ->
   (forall k seg body rest, P body -> P rest -> P (IDev k seg body :: rest)) ->
+  (forall k seg fl body rest, P body -> P rest -> P (IMeth k seg fl body :: rest)) ->
   forall l, P l.
 Proof.
-  intros H0 Hn Hd.
+  intros H0 Hn Hd Hm.
   assert (HS : forall n l, (iszs l <= n)%nat -> P l).
   { induction n as [|n IH]; intros l Hl.
     - destruct l as [|x t]; [exact H0|]. cbn [iszs fold_right] in Hl. pose proof (isz_pos x). lia.
     - destruct l as [|x t]; [exact H0|]. cbn [iszs fold_right] in Hl. fold (iszs t) in Hl. pose proof (isz_pos x).
-      destruct x as [d|k seg body].
+      destruct x as [d|k seg body|k seg fl body].
       + apply Hn. apply IH. lia.
-      + rewrite isz_dev in Hl. apply Hd; apply IH; lia. }
+      + rewrite isz_dev in Hl. apply Hd; apply IH; lia.
+      + rewrite isz_meth in Hl. apply Hm; apply IH; lia. }
   intros l. apply (HS (iszs l)). lia.
 Qed.
